@@ -50,17 +50,6 @@ Proof.
   - apply list_R_map1.
 Qed.
 
-Lemma rawsteps_rel (l : list (rawstep Q)) :
-  list_R _ _ (prod_R _ _ (prod_R _ _ (prod_R _ _ (prod_R _ _ nat_R (list_R _ _ bool_R))
-                                                  (list_R _ _ bool_R))
-                                      (list_R Q R QR))
-                          (list_R _ _ nat_R))
-         l (map stepR l).
-Proof.
-  apply list_R_map. intros [[[[x Z] E] V] pol]. simpl.
-  repeat constructor; auto using nat_R_refl, list_R_bool_refl, list_R_map1, list_R_nat_refl.
-Qed.
-
 Theorem c03_run_transfer nS nA P Rw av ab ini g conv ex V C pol Pi iv Vstar (r : Q) h l :
   @c03_run_raw Q NumQ (mk_mdp nS nA P Rw av ab ini g) (mk_lao conv ex V C pol Pi iv) Vstar r h l =
   @c03_run_raw R NumR
@@ -75,7 +64,8 @@ Proof.
   - apply list_R_map1.
   - reflexivity.
   - apply list_R_map1.
-  - apply rawsteps_rel.
+  - apply list_R_map. intros [[[[x Z] E] V0] pol0]. simpl.
+    repeat constructor; auto using nat_R_refl, list_R_bool_refl, list_R_map1, list_R_nat_refl.
 Qed.
 Print Assumptions c03_check_transfer.
 Print Assumptions c03_run_transfer.
